@@ -16,11 +16,11 @@ import (
 
 // Op is one step of a call history on a family of level views sharing one source.
 type Op struct {
-	Kind  string `json:"kind"`            // "view" | "read" | "new" | "add"
+	Kind  string `json:"kind"`            // "view" | "read" | "new" | "add" | "withprng" (uniform sampler only)
 	From  int    `json:"from"`            // sampler the step applies to: 0 = base sampler, k = k-th view created so far (mod count)
 	Level int    `json:"level"`           // view: level of the new view. read/new/add: >= 0 = call From.AtLevel(Level) for this call only, -1 = call From itself
 	Extra int    `json:"extra,omitempty"` // read/add: the target polynomial has this many limbs above the sampling level (clamped)
-	Seed  uint64 `json:"seed,omitempty"`  // read/add: previous content of the target polynomial
+	Seed  uint64 `json:"seed,omitempty"`  // read/add: previous content of the target polynomial; withprng: key material of the new PRNG
 }
 
 // HistCase is a sampler configuration plus a whole call history.
@@ -58,19 +58,27 @@ func genHist(t *rapid.T) HistCase {
 	n := rapid.IntRange(1, 10).Draw(t, "nOps")
 	for i := 0; i < n; i++ {
 		var op Op
-		switch k := rapid.IntRange(0, 19).Draw(t, fmt.Sprintf("op%d", i)); {
+		switch k := rapid.IntRange(0, 22).Draw(t, fmt.Sprintf("op%d", i)); {
 		case k < 3:
 			op.Kind = "view"
 		case k < 9:
 			op.Kind = "read"
 		case k < 14:
 			op.Kind = "new"
-		default:
+		case k < 20:
 			op.Kind = "add"
+		case kind == "uniform":
+			// derive a sampler over another PRNG from a (possibly already used) sampler or view
+			op.Kind = "withprng"
+			op.Seed = rapid.Uint64().Draw(t, fmt.Sprintf("prngKey%d", i))
+		default:
+			op.Kind = "read"
 		}
 		op.From = rapid.IntRange(0, 4).Draw(t, fmt.Sprintf("from%d", i))
 		if op.Kind == "view" {
 			op.Level = rapid.IntRange(0, maxL).Draw(t, fmt.Sprintf("lvl%d", i))
+		} else if op.Kind == "withprng" {
+			op.Level = -1
 		} else {
 			op.Level = rapid.IntRange(-1, maxL).Draw(t, fmt.Sprintf("lvl%d", i))
 		}
@@ -359,6 +367,7 @@ func runHist(c HistCase, rec *h.Rec) error {
 	nCalls := 0
 	decidable := false
 
+	derived := false
 	for oi, op := range c.Ops {
 		if op.Kind == "view" {
 			for _, f := range fam {
@@ -366,6 +375,28 @@ func runHist(c HistCase, rec *h.Rec) error {
 				f.views = append(f.views, s.AtLevel(op.Level))
 				f.levels = append(f.levels, op.Level)
 			}
+			continue
+		}
+		if op.Kind == "withprng" {
+			// The subject derives a sampler with WithPRNG from a sampler that may have been read before; the twins
+			// construct a FRESH sampler over an identically keyed PRNG instead and never derive anything. Every later
+			// call on the derived sampler and on its parent is compared bit for bit (twin oracle below): the derived
+			// sampler is determined by its key alone and the parent's stream is not disturbed.
+			i := op.From % len(S.views)
+			us, ok := S.views[i].(*ring.UniformSampler)
+			if !ok {
+				continue
+			}
+			lvl := S.levels[i]
+			k2 := h.NewSplitMix(c.Key ^ op.Seed ^ uint64(oi+1)*0x9e3779b97f4a7c15).Uint64() // distinct from the parent's key
+			S.views = append(S.views, us.WithPRNG(keyedPRNG(k2)))
+			S.levels = append(S.levels, lvl)
+			for _, f := range fam[1:] {
+				f.views = append(f.views, ring.NewUniformSampler(keyedPRNG(k2), r.AtLevel(lvl)))
+				f.levels = append(f.levels, lvl)
+			}
+			derived = true
+			rec.Class("history:withprng")
 			continue
 		}
 		sS, lvl := S.pick(op)
@@ -444,6 +475,9 @@ func runHist(c HistCase, rec *h.Rec) error {
 
 		// reproducibility: equal key + equal call history => bit-identical
 		if !polyEqual(outS, outT) {
+			if derived {
+				return h.Failf(fmt.Sprintf("C17:%s:%s:WithPRNG:derived-or-parent-differs-from-fresh-twin", d.Kind, what), "op %d: after WithPRNG the subject (sampler derived with WithPRNG, or its parent) and the twin (sampler freshly constructed over an identically keyed PRNG, parent that never derived anything) returned different polynomials for the same calls", oi)
+			}
 			return h.Failf(fmt.Sprintf("C17:%s:%s:twin-not-bit-identical", d.Kind, what), "op %d: two samplers with the same key and the same call history returned different polynomials", oi)
 		}
 
@@ -564,7 +598,7 @@ func runHist(c HistCase, rec *h.Rec) error {
 		if nViews > 2 {
 			nViews = 2
 		}
-		rec.NonTrivial(fmt.Sprintf("%s %s logN=%d limbs=%d q:%s mont=%v kinds=%s levels=%d %s views=%d", d.class(), hclass, c.Ring.LogN, maxL+1, c.Ring.sizeClass(), c.Mont, strings.Join(ks, "+"), len(levels), lenClass, nViews))
+		rec.NonTrivial(fmt.Sprintf("%s %s logN=%d limbs=%d q:%s mont=%v kinds=%s levels=%d %s views=%d", d.class(), hclass, c.Ring.LogN, maxL+1, c.Ring.sizeClass(), c.Mont, strings.Join(ks, "+"), len(levels), lenClass, nViews) + map[bool]string{true: " withprng", false: ""}[derived])
 	}
 	if mixed {
 		rec.Class("history:mixed")
